@@ -1014,7 +1014,7 @@ pub fn c19_query(pool: &PhrasePool, rng: &mut Rng) -> String {
             _ => format!("1 / {}", rng.range(2, 13)),
         }
     };
-    match rng.below(27) {
+    match rng.below(29) {
         20 | 21 => format!("{} {}", *rng.pick(&["1", "0.5", "0.25", "0.125", "0.2", "2", "1.0", "10", "0.1", "1.5", "0.01", "3"]), plural_unit(rng)),
         22 => format!("{} {} to {}", *rng.pick(&["1", "10", "100", "5", "0.5"]), plural_unit(rng), plural_unit(rng)),
         23 => format!("({})({})", small(rng), small(rng)),
@@ -1040,6 +1040,17 @@ pub fn c19_query(pool: &PhrasePool, rng: &mut Rng) -> String {
                 }
             };
             (0..n).map(|_| format!("({})", tight(rng))).collect::<Vec<_>>().join("")
+        }
+        27 | 28 => {
+            // results whose unit has several parts on both sides of the '/'
+            let base = |rng: &mut Rng| -> &'static str { *rng.pick(&["kg", "m", "s", "A", "K", "mol", "cd", "N", "J", "W", "Pa", "hr", "km", "g", "ms", "decade", "ton", "btu", "l"]) };
+            let n = rng.range(2, 5);
+            let mut t = format!("{}{}", rng.range(1, 9), base(rng));
+            for _ in 1..n {
+                let op = if rng.chance(1, 2) { "*" } else { "/" };
+                t = format!("{t} {op} {}{}", rng.range(1, 9), base(rng));
+            }
+            t
         }
         0 => int(rng),
         1 => dec(rng),
